@@ -227,11 +227,22 @@ def rule_immutable_api(ctx):
         g = cfg_of(sa)
         # every path to a normal exit with a public name passes the raise: i.e. the only normal paths go through the false
         # branch of `if not name.startswith('_')`
-        tests = [x for x in g.nodes if x.kind == "test" and isinstance(x.ast, ast.If) and norm(x.ast.test) == "not %s.startswith('_')" % sa.params[1]
+        def disj(t):
+            return [norm(v) for v in t.values] if isinstance(t, ast.BoolOp) and isinstance(t.op, ast.Or) else [norm(t)]
+        tests = [x for x in g.nodes if x.kind == "test" and isinstance(x.ast, ast.If) and ("not %s.startswith('_')" % sa.params[1]) in disj(x.ast.test)
                  and any(isinstance(s, ast.Raise) and exc_name(s) == "ImmutableError" for s in x.ast.body)
                  and all(isinstance(s, ast.Raise) for s in x.ast.body)]
         if tests:
             ok, path = g.must_pass(lambda x: x in tests)
+        # ... and the names that ARE properties of the object although they start with an underscore (STIX 2.0 allows such
+        # custom property names): the refusal also covers membership in the object's own property storage
+        covers = any(any((" in self" in d_ and sa.params[1] in d_ and "_inner" in d_) for d_ in disj(x.ast.test)) for x in tests)
+        run.check(covers, R, key(rel, "_STIXBase.__setattr__", "refuses-every-property-name"),
+                  "assignment to a property whose name starts with an underscore (a legal custom property name in STIX 2.0) is "
+                  "accepted: afterwards obj._rank reads the new value while obj['_rank'] and serialize() show the old one",
+                  file=rel, line=sa.node.lineno, function="_STIXBase.__setattr__",
+                  expected="raise ImmutableError also when the name is one of the object's properties (name in self._inner)",
+                  found=[norm(x.ast.test) for x in tests])
     run.check(ok, R, key(rel, "_STIXBase.__setattr__", "refuses-public-names"), "assignment to a property of a STIX object is not "
               "refused on every path", file=rel, line=sa.node.lineno if sa else base.node.lineno, function="_STIXBase.__setattr__",
               expected="if not name.startswith('_'): raise ImmutableError", found="bypass", path=g.describe_path(path) if sa else None)
